@@ -169,7 +169,7 @@ PROPS["C09"] = {
                   "time since a linearisation point is a step of the operation itself); a writer excludes all readers and writers; whenever no operation is in flight the lock is free (a failed update leaves the atom usable and unchanged); "
                   "some unfinished thread can always move unless an update function re-locks the atom being swapped. That last case is REFUTED in the model (C09_self_deref_refuted) and is the open known finding C09:swap-self-deref; the "
                   "opposite-nesting deadlock C09:nested-swap-abba is exhibited on the implementation only (the model has one atom: update functions touching OTHER atoms are checked on recorded histories, not proved: partial). "
-                  "The tie to the code: (1) the translator's action lists for swap!, reset!, Atom.Deref, Atom.LispPrint equal the lists the model's steps follow, and every function of concurrent.go passes the lock-discipline analysis "
+                  "The tie to the code: (1) the translator's action lists for swap!, reset!, Atom.Deref, Atom.LispPrint have exactly the path sets (Paths.fn_paths: every branch, deferred unlocks expanded at returns) the model's steps follow, and every function of concurrent.go passes the lock-discipline analysis "
                   "(proved sound: every path reads Val under R/W, writes under W, never re-locks, returns balanced); (2) 400 (quick) / 6000 (thorough) recorded concurrent histories of the real atoms are linearizable per the Coq checker, 0 data races, no hang.",
     "level_note": "trusted: Coq kernel+VM, extraction, OCaml driver, Go harness (threads, logical clock, watchdogs), Go race detector, translator go/cmd/gen (go/ast walk emitting lock/field/channel actions); the Go scheduler decides which interleavings the recorded histories sample; sync.RWMutex semantics are modelled (writer exclusive, readers shared, blocking, non-reentrant)",
     "trusted": ["translator go/cmd/gen: action lists of concurrent.go and env.go (go/ast)", "modelled rather than verified: sync.RWMutex, goroutine scheduling as arbitrary interleaving of the listed actions, Apply as one atomic step that returns a value or fails",
@@ -188,7 +188,7 @@ PROPS["C10"] = {
                   "after a deref returned the outcome; a cancel that returned true leaves the future cancelled for good, its body's context cancelled, and every later cancelled?/cancel says so; a cancel that returned false found it done and not cancelled and changed nothing "
                   "(never cancelled, context untouched); the flags are only accessed by the holder of f.mu (no data race). These hold on the tree WITH the fix 4129ba5 (before it the flags were unsynchronised and done was raised after delivery: genuine defect, fixed). "
                   "no hang (C10_never_stuck): in every reachable state where the body has not delivered or some caller has a call to make or finish, some thread can move, and a delivered outcome is never lost (it is in the slot or with the one reader re-depositing it). Not proved (partial): termination under a fair scheduler as such (only the absence of stuck states), and 'a cancel that finds the future completed and uncancelled returns false' in its strongest temporal form; both are also checked on the recorded histories (final patient deref under watchdog; cancel-true-needs-an-earlier-cancel oracle). "
-                  "Tie: action lists of NewFuture's goroutine, Deref, Cancel, IsDone, IsCancelled and the status builtins equal the lists the model follows; lock discipline of every function; 400/4000 recorded histories accepted by the extracted checker, 0 races.",
+                  "Tie: the path sets of NewFuture's goroutine, Deref, Cancel, IsDone, IsCancelled and the status builtins are the ones the model follows; lock discipline of every function; 400/4000 recorded histories accepted by the extracted checker, 0 races.",
     "level_note": "trusted: as C09; channels are modelled as one-slot buffers (capacity 1 as in NewFuture), select as nondeterministic choice among ready cases, context cancellation as a boolean the body's outcome may depend on",
     "trusted": ["translator go/cmd/gen (action lists)", "modelled rather than verified: buffered channels of capacity 1, select, context.WithCancel, sync.Mutex", "Go race detector"],
     "assumptions": ["the body is an arbitrary function of whether its context was cancelled by the time it finished", "callers' own deadlines are modelled as 'may time out at any moment once expiring'"],
